@@ -268,7 +268,7 @@ def do_upload(rig, c, index, sub):
         guard = 0
         while True:
             guard += 1
-            if guard > 20000:
+            if guard > 2 * c["n"] + 1000:
                 raise RuntimeError("read loop does not terminate")
             if c["reads"] == "all":
                 if raw:
